@@ -495,6 +495,25 @@ func (w *world) step(u *upd, tag string) (*stepRec, error) {
 			fail("error-with-partial-effect", "update acknowledged with an error but the view changed: "+unchanged)
 		}
 	}
+	// the size announced for every listed message is the number of octets served for it (whatever the update kind:
+	// a message is created by MessagesCreated and MessageUpdated, replaced by MessageUpdated with another literal)
+	{
+		var d []string
+		for n, b := range vAfter.Boxes {
+			for _, m := range b.Msgs {
+				if m.Octets >= 0 && !strings.HasPrefix(m.Marker, "?unfetchable") && m.Size != m.Octets {
+					d = append(d, fmt.Sprintf("%s uid %d (%s): RFC822.SIZE %d, BODY[] has %d octets", n, m.UID, m.Marker, m.Size, m.Octets))
+				}
+			}
+		}
+		if len(d) > 0 {
+			sort.Strings(d)
+			if len(d) > 5 {
+				d = d[:5]
+			}
+			fail("size-differs-from-octets", strings.Join(d, "; "))
+		}
+	}
 	// observers
 	for _, o := range w.obs {
 		evs, alive := w.drainObserver(o)
